@@ -154,7 +154,7 @@ def doc(body, cls='article', pre=''):
 
 
 WARM = ['plasTeX.Base', 'plasTeX.Base.TeX', 'plasTeX.Base.LaTeX', 'plasTeX.Packages.article', 'plasTeX.Packages.book', 'plasTeX.Packages.report',
-        'plasTeX.Packages.ifthen', 'plasTeX.Packages.natbib']
+        'plasTeX.Packages.ifthen', 'plasTeX.Packages.natbib', 'plasTeX.Packages.longtable']
 # documents exercising the stateful features (first component: short name)
 PROBES = [
     ('plain', doc(r'Hello \textbf{world} $x^2$ \(y\) \[z\]')),
@@ -177,6 +177,15 @@ PROBES = [
     ('labels', doc(r'\section{A}\label{s}\ref{s} \ref{missing}')),
     ('openout', doc(r'\newwrite\foo \openout\foo=bar \parindent=5pt x')),
     ('param-error', r'\documentclass{article}\begin{document}\parindent='),
+    # every kind of value scanner, with the value coming from another parameter / register
+    ('scan-muglue', doc(r'\thickmuskip=\medmuskip \newmuskip\mymu \mymu=\thinmuskip x')),
+    ('scan-glue', doc(r'\parskip=\baselineskip \newskip\mysk \mysk=2pt plus 1pt minus 1pt \hskip\mysk y')),
+    ('scan-dimen', doc(r'\newdimen\myd \myd=2\parindent \parindent=\myd \newcount\myc \myc=\tolerance z')),
+    ('scan-mudimen', doc(r'\mkern 3mu \thinmuskip=2mu w')),
+    # environments whose classes derive from one another (class-level caches must not be inherited)
+    ('tabular', doc(r'\begin{tabular}{ll}a&b\\c&d\end{tabular}')),
+    ('eqnarray-star', doc(r'\begin{eqnarray*}a&=&b\\c&=&d\end{eqnarray*}')),
+    ('itemize', doc(r'\begin{itemize}\item a\end{itemize}')),
 ]
 # documents whose result is compared (B)
 TARGETS = [
@@ -190,6 +199,10 @@ TARGETS = [
     ('tabular', doc(r'\begin{tabular}{lZr}a&b&c\end{tabular}')),
     ('param', doc(r'\parindent=5pt \the\parindent \def\x{1}\x \catcode`\@=12 a@b')),
     ('cite', doc(r'\citetalias{k}', pre=r'\usepackage{natbib}')),
+    ('assign', doc(r'\newcount\mycount \mycount=42 \the\mycount \tolerance=300 \the\tolerance')),
+    ('longtable', doc(r'\begin{longtable}{ll}h&h\endhead a&b\\c&d\end{longtable}', pre=r'\usepackage{longtable}')),
+    ('eqnarray', doc(r'\begin{eqnarray}a&=&b\\c&=&d\end{eqnarray}')),
+    ('description', doc(r'\begin{description}\item[k] a\end{description}\begin{enumerate}\item b\end{enumerate}')),
 ]
 
 
